@@ -97,6 +97,10 @@ class M:
         raise Untranslatable("call " + ast.dump(n)[:100])
 
     def cond(self, n, env):
+        atoms = self.spec.get("atoms", {})
+        u = ast.unparse(n)
+        if u in atoms:                      # an opaque boolean fact about non-integer objects, by its exact text
+            return atoms[u]
         if isinstance(n, ast.BoolOp):
             op = "&&" if isinstance(n.op, ast.And) else "||"
             return "(" + f" {op} ".join(self.cond(v, env) for v in n.values) + ")"
@@ -199,6 +203,18 @@ class M:
             # general two-armed form: join the variables assigned in either arm
             names = [x for x in self.assigned(st.body) + self.assigned(st.orelse)]
             names = [x for i, x in enumerate(names) if x not in names[:i]]
+            # only what is read afterwards needs joining (a local used inside one arm only is dropped)
+            later = set()
+            for r in rest:
+                for y in ast.walk(r):
+                    if isinstance(y, ast.Name):
+                        later.add(y.id)
+                    elif isinstance(y, ast.Attribute):
+                        try:
+                            later.add(attr_path(y))
+                        except Untranslatable:
+                            pass
+            names = [x for x in names if x in later or x in self.spec.get("state", []) or x in self.spec.get("keep", [])]
             if not names:
                 # arms only validate
                 unit = lambda e: "(Ok tt)"
@@ -298,7 +314,7 @@ def gen_window_arith(repo):
               "self._next_addr = addr_range.stop", "return (addr_range.start, addr_range.stop, addr_range.step)"]
     if tail != expect:
         raise Untranslatable(f"add_window: the statements after _compute_addr_range changed: {tail}")
-    spec = {"calls": {}, "state": [], "ret": None}
+    spec = {"calls": {}, "state": [], "ret": None, "keep": ["ratio", "size", "alignment"]}
     m = M(spec)
     env = {"self.data_width": V("self_data_width", "Z"), "self.alignment": V("self_alignment", "Z"),
            "window.data_width": V("window_data_width", "Z"), "window.addr_width": V("window_addr_width", "Z"),
@@ -333,12 +349,99 @@ def gen_resource_tail(repo):
               "return (addr_range.start, addr_range.stop)"]
     if tail != expect:
         raise Untranslatable(f"add_resource: the statements after the alignment defaulting changed: {tail}")
-    spec = {"calls": {}, "state": [], "ret": None}
+    spec = {"calls": {}, "state": [], "ret": None, "keep": ["alignment"]}
     m = M(spec)
     env = {"self.alignment": V("self_alignment", "Z"), "alignment": V("alignment", "pyint")}
     txt = m.block([body[idx]], env, lambda e: f"(Ok {asZ(e['alignment'])})")
     return ("(* amaranth_soc/memory.py: MemoryMap.add_resource, effective alignment *)\n"
             f"Definition gen_resource_alignment (self_alignment : Z) (alignment : pyint) : res Z :=\n  {txt}.\n")
+
+
+# ------------------------------------------------------------------------------------------------ csr.Builder
+
+def _ret_builder_add(m, v, env):
+    raise Untranslatable("unexpected return")
+
+
+BUILDER_ADD = {
+    "file": "amaranth_soc/csr/reg.py", "path": ["Builder", "add"], "name": "gen_builder_add",
+    "params": [("is_reg", "bool"), ("frozen", "bool"), ("name_ok", "bool"), ("dup", "bool"),
+               ("self_data_width", "Z"), ("self_granularity", "Z"), ("offset", "pyint")],
+    "env": {"self.data_width": ("self_data_width", "Z"), "self.granularity": ("self_granularity", "Z"),
+            "offset": ("offset", "pyint")},
+    "atoms": {"isinstance(reg, Register)": "is_reg", "self._frozen": "frozen",
+              "name is None or not (isinstance(name, str) and name)": "(negb name_ok)",
+              "id(reg) in self._registers": "dup"},
+    "state": [], "calls": {}, "rtype": "res pyint", "ret": _ret_builder_add}
+
+
+def gen_builder(repo):
+    """csr.Builder.add as a function of opaque boolean facts (is a Register / frozen / name valid / already added)
+    and the integer arguments; and the three arithmetic expressions of the as_memory_map loop."""
+    src = open(os.path.join(repo, "amaranth_soc/csr/reg.py")).read()
+    tree = ast.parse(src)
+    fn = find_func(tree, BUILDER_ADD["path"])
+    body = [s for s in fn.body if not (isinstance(s, ast.Expr) and isinstance(s.value, ast.Constant))]
+    tail = [ast.unparse(s).split("\n")[0] for s in body[-2:]]
+    if tail != ["self._registers[id(reg)] = (reg, (*self._scope_stack, name), offset)", "return reg"]:
+        raise Untranslatable(f"Builder.add: the recording statements changed: {tail}")
+    m = M(BUILDER_ADD)
+    env = {k: V(n, t) for k, (n, t) in BUILDER_ADD["env"].items()}
+    txt = m.block(body[:-2], env, lambda e: "(Ok offset)")
+    ps = " ".join(f"({n} : {t})" for n, t in BUILDER_ADD["params"])
+    out = [f"(* amaranth_soc/csr/reg.py: Builder.add (the offset it records, or the refusal) *)\n"
+           f"Definition gen_builder_add {ps} : res pyint :=\n  {txt}.\n"]
+    # as_memory_map
+    fn = find_func(tree, ["Builder", "as_memory_map"])
+    body = [s for s in fn.body if not (isinstance(s, ast.Expr) and isinstance(s.value, ast.Constant))]
+    shape = [ast.unparse(s).split("\n")[0] for s in body]
+    expect = ["self.freeze()", "memory_map = MemoryMap(addr_width=self.addr_width, data_width=self.data_width)",
+              "for reg, reg_name, reg_offset in self._registers.values():", "memory_map.freeze()", "return memory_map"]
+    if shape != expect:
+        raise Untranslatable(f"Builder.as_memory_map: statements changed: {shape}")
+    loop = body[2].body
+    if len(loop) != 3 or not isinstance(loop[0], ast.If) or ast.unparse(loop[0].test) != "reg_offset is not None" \
+            or len(loop[0].body) != 1 or len(loop[0].orelse) != 1 or ast.unparse(loop[0].orelse[0]) != "reg_addr = None":
+        raise Untranslatable("Builder.as_memory_map: the address defaulting changed")
+    call = loop[2]
+    if not (isinstance(call, ast.Expr) and isinstance(call.value, ast.Call)
+            and ast.unparse(call.value.func) == "memory_map.add_resource"
+            and [ast.unparse(a) for a in call.value.args] == ["reg"]
+            and [(k.arg, ast.unparse(k.value)) for k in call.value.keywords[:3]] ==
+            [("name", "reg_name"), ("addr", "reg_addr"), ("size", "reg_size")]
+            and call.value.keywords[3].arg == "alignment" and len(call.value.keywords) == 4):
+        raise Untranslatable("Builder.as_memory_map: add_resource is not called as (reg, name=reg_name, addr=reg_addr, "
+                             "size=reg_size, alignment=...)")
+    spec = {"calls": {}, "state": [], "ret": None}
+    m = M(spec)
+    env = {"self.granularity": V("self_granularity", "Z"), "self.data_width": V("self_data_width", "Z"),
+           "reg_offset": V("reg_offset", "Z"), "reg.element.width": V("width", "Z")}
+    a = loop[0].body[0]
+    if not (isinstance(a, ast.Assign) and ast.unparse(a.targets[0]) == "reg_addr"):
+        raise Untranslatable("reg_addr assignment")
+    addr = asZ(m.expr(a.value, env))
+    sz = loop[1]
+    if not (isinstance(sz, ast.Assign) and ast.unparse(sz.targets[0]) == "reg_size"):
+        raise Untranslatable("reg_size assignment")
+    size = asZ(m.expr(sz.value, env))
+    env["reg_size"] = V("reg_size", "Z")
+    al = asZ(m.expr(call.value.keywords[3].value, env))
+    out.append("(* amaranth_soc/csr/reg.py: Builder.as_memory_map, per register *)\n"
+               f"Definition gen_builder_addr (self_granularity self_data_width reg_offset : Z) : Z := {addr}.\n"
+               f"Definition gen_builder_size (self_data_width width : Z) : Z := {size}.\n"
+               f"Definition gen_builder_alignment (reg_size : Z) : Z := {al}.\n")
+    return "\n".join(out)
+
+
+def generate_builder(repo):
+    out = ["(* GENERATED on every run by harness/translate2.py from /repo's current source. Do not edit. *)",
+           "From Coq Require Import ZArith Bool.", "From Soc Require Import Lib.Bits Lib.Res.",
+           "Open Scope Z_scope.", "",
+           "Definition is_none (v : pyint) : bool := match v with VNone => true | _ => false end.",
+           "Definition is_int (v : pyint) : bool := match v with VInt _ => true | _ => false end.",
+           "Definition zof (v : pyint) : Z := match v with VInt z => z | _ => 0 end.", "",
+           gen_builder(repo)]
+    return "\n".join(out)
 
 
 def generate(repo):
